@@ -3,7 +3,8 @@
 
 // cfg: [0] n stations declared, [1] p (-1 = own address absent), [2] decoy (0 none, 1 near-miss addresses, 2 own address straddling two slots),
 //      [3] table class 0..6, [4] opcode, [5] ToS, [6] real destination broadcast?, [7] held (-1 = n; else stations really inside the received length),
-//      [8] generation, [9] xid
+//      [8] generation, [9] xid, [10] Reset/other frames: Ethernet destination broadcast? (independent of the real destination),
+//      [11] extra station slots the frame carries BEYOND the declared count (the own address is put into the first of them: it must not count)
 enum { T_NULL, T_EMPTY, T_SAME_SAME_XID, T_SAME_OTHER_XID, T_SAME_MAPPER_OTHER_GEN, T_OTHER_MAPPER_SAME_GEN, T_FULL_OTHERS, T_HOLE_THEN_OTHER_XID, T_HOLE_THEN_SAME_XID, T_SAME_SAME_XID_COMPLETE, T_SAME_OTHER_XID_COMPLETE, T_NCLASSES };
 
 static const Mac OWN = {{0x02, 0x11, 0x22, 0x33, 0x44, 0x55}};
@@ -33,11 +34,15 @@ static Verdict run(const Case &c) {
         }
     }
     if (p >= 0) st[p] = OWN;
-    Mac rdst = c.c(6) ? BCAST : OWN;
+    Mac rdst = c.c(6) ? BCAST : OWN, edst = c.c(10, c.c(6)) ? BCAST : OWN;
+    int extra = (int)std::max<int64_t>(0, std::min<int64_t>(c.c(11), 8));
+    if (held < n) extra = 0;
     Bytes f;
-    if (opcode == OP_DISCOVER) f = mk_discover(MAPPER, MAPPER, (uint8_t)tos, xid, gen, st);
-    else { f = mk_header(rdst, MAPPER, (uint8_t)tos, (uint8_t)opcode, rdst, MAPPER, xid); Bytes body(20, 0x77); f.insert(f.end(), body.begin(), body.end()); }
-    size_t len = opcode == OP_DISCOVER ? 36 + 6 * (size_t)held : f.size();
+    if (opcode == OP_DISCOVER) {
+        f = mk_discover(MAPPER, MAPPER, (uint8_t)tos, xid, gen, st);
+        for (int i = 0; i < extra; i++) putmac(f, i == 0 ? OWN : mac_from_u64(0x0600EE000000ULL + (uint64_t)i));   // received bytes after the declared list
+    } else { f = mk_header(edst, MAPPER, (uint8_t)tos, (uint8_t)opcode, rdst, MAPPER, xid); Bytes body(20, 0x77); f.insert(f.end(), body.begin(), body.end()); }
+    size_t len = opcode == OP_DISCOVER ? 36 + 6 * (size_t)(held + extra) : f.size();
     uint8_t *buf = (uint8_t *)malloc(MTU);
     memset(buf, 0xEE, MTU);
     cpy(buf, f.data(), std::min(f.size(), MTU));    // stations beyond 'held' stay in the buffer as stale bytes
@@ -91,12 +96,13 @@ static Verdict run(const Case &c) {
     } else if (ev != -1) v.fail(fmt("opcode %d: %s, expected no event (-1)", opcode, got.c_str()));
     if (t) br_st_destroy(t);
     free(buf);
-    v.nontrivial = opcode == OP_DISCOVER && ((n >= 2 && p >= 1) || (decoy && n >= 1));
+    v.nontrivial = opcode == OP_DISCOVER && ((n >= 2 && p >= 1) || (decoy && n >= 1) || extra);
     if (opcode == OP_DISCOVER) {
         v.cls(p < 0 ? "own-absent" : p == 0 ? "own-first" : p == n - 1 ? "own-last" : "own-middle");
         v.cls(fmt("table-class-%d", tclass));
         if (decoy) v.cls(fmt("decoy-%d", decoy));
         if (held < n) v.cls("count-exceeds-frame");
+        if (extra) v.cls("frame-holds-more-than-count");
     } else v.cls(opcode == OP_RESET ? "reset" : opcode == OP_HELLO ? "hello" : "other-opcode");
     return v;
 }
@@ -126,12 +132,12 @@ int main(int argc, char **argv) {
         for (int p = -1; p < n && ok; p++)
             for (int t = 0; t < T_NCLASSES && ok; t++, k++) {
                 if (k % a.nshards != a.shard) continue;
-                ok = one(a, ev, {n, p, 0, t, OP_DISCOVER, n & 1, 1, -1, 0x1234, 0x0042}, "c11-layouts");
+                ok = one(a, ev, {n, p, 0, t, OP_DISCOVER, n & 1, 1, -1, 0x1234, 0x0042, 1, (n + t) % 3 == 0 ? 2 : 0}, "c11-layouts");
             }
     for (int opc = 0; opc < 256 && ok; opc++)
-        for (int bc = 0; bc < 2 && ok; bc++) {
-            if ((opc * 2 + bc) % a.nshards != a.shard || opc == OP_DISCOVER) continue;
-            ok = one(a, ev, {3, 1, 0, (opc + bc) % T_NCLASSES, opc, opc & 1, bc, -1, 7, 9}, "c11-opcodes");
+        for (int bc = 0; bc < 4 && ok; bc++) {   // real destination broadcast? x Ethernet destination broadcast?
+            if ((opc * 4 + bc) % a.nshards != a.shard || opc == OP_DISCOVER) continue;
+            ok = one(a, ev, {3, 1, 0, (opc + bc) % T_NCLASSES, opc, opc & 1, bc & 1, -1, 7, 9, bc >> 1, 0}, "c11-opcodes");
         }
     if (ok) {
         auto gen = rc::gen::exec([] {
@@ -141,7 +147,7 @@ int main(int argc, char **argv) {
             int64_t held = *gx::chance(25) ? *gx::range<int64_t>(0, n) : -1;
             int64_t opc = *gx::weighted<int64_t>({{12, rc::gen::just<int64_t>(0)}, {1, rc::gen::just<int64_t>(8)}, {1, rc::gen::just<int64_t>(1)}, {1, gx::range<int64_t>(0, 255)}});
             c.cfg = {n, p, *gx::pick({0, 0, 1, 2}), *gx::range<int64_t>(0, T_NCLASSES - 1), opc, *gx::pick({0, 1}), *gx::pick({0, 1}), held,
-                     *gx::bnd({0, 1, 0xFFFF}, 0, 0xFFFF, 1, 1), *gx::bnd({0, 1, 0xFFFF}, 0, 0xFFFF, 1, 1)};
+                     *gx::bnd({0, 1, 0xFFFF}, 0, 0xFFFF, 1, 1), *gx::bnd({0, 1, 0xFFFF}, 0, 0xFFFF, 1, 1), *gx::pick({0, 1}), *gx::pick({0, 0, 1, 3})};
             return c;
         });
         ok = run_cases(a, ev, "c11-random", a.n(200000, 2000000), 100, gen, run);
